@@ -75,3 +75,35 @@ void h_AssembleFile(void) {
     VPOST(!CodeOutput || ((g_out_exists != 0) == (ErrorCount == 0)), "C02: a code file is left iff no error was counted");
     VREACH("end");
 }
+
+/* C01: every pass starts from the same state, whatever the previous pass left behind (an unterminated PHASE, an open
+ * section / IF / structure, a moved program counter ...): only the symbol table carries information from pass to pass,
+ * which is what makes "one further pass changes nothing" meaningful.  All per-pass globals are arbitrary on entry. */
+void h_InitPass(void) {
+    int z; static TInputTag some_tag; static TOutputTag some_out;
+    static char cfn[STRINGSIZE], defcpu[4];
+    CurrFileName = cfn; defcpu[0] = 0;
+    { static LargeWord pcs[SegCountPlusStruct], phs[SegCountPlusStruct]; PCs = pcs; Phases = phs; }   /* asmdef.c allocates both with SegCountPlusStruct entries */
+    for (z = 0; z <= StructSeg; z++) { VND(Phases[z], u64); VND(PCs[z], u64); VND(PCsUsed[z], uchar); }
+    for (z = 0; z < SegCount; z++) { VND_BYTES(&pPhaseStacks[z], sizeof(pPhaseStacks[z])); }
+    VND(ActPC, int); VND(MomLineCounter, int); VND(MomLocHandle, int); VND(LocHandleCnt, int); VND(SectSymbolCounter, int);
+    VND(CurrLine, int); VND(IncDepth, int); VND(ENDOccured, uchar); VND(RelSegs, uchar); VND(ErrorCount, uint); VND(WarnCount, uint);
+    VND(LineSum, int); VND(MacLineSum, int);
+    FirstInputTag = &some_tag; FirstOutputTag = &some_out;
+    VND_BYTES(&SectionStack, sizeof(SectionStack)); VND_BYTES(&FirstIfSave, sizeof(FirstIfSave)); VND_BYTES(&FirstSaveState, sizeof(FirstSaveState));
+    VND_BYTES(&StructStack, sizeof(StructStack)); VND_BYTES(&pInnermostNamedStruct, sizeof(pInnermostNamedStruct));
+    VND(PassNo, int); VASSUME(PassNo >= 0 && PassNo < 1000);
+    AssembleFile_InitPass();
+    for (z = 1; z <= StructSeg; z++) {
+        VPOST(Phases[z] == 0, "C01: a pass starts without any PHASE offset, whatever the previous pass left");
+        VPOST(!PCsUsed[z], "C01: a pass starts with no segment marked as used");
+    }
+    for (z = 0; z < SegCount; z++) VPOST(pPhaseStacks[z] == NULL, "C01: a pass starts with empty PHASE stacks");
+    VPOST(ActPC == SegCode && PCs[SegCode] == 0, "C01: a pass starts in the code segment at address 0");
+    VPOST(MomLineCounter == 0 && CurrLine == 0 && IncDepth == 0 && LineSum == 0 && MacLineSum == 0, "C01: a pass starts with fresh line counters");
+    VPOST(FirstInputTag == NULL && FirstOutputTag == NULL && SectionStack == NULL && FirstIfSave == NULL && FirstSaveState == NULL && StructStack == NULL && pInnermostNamedStruct == NULL,
+          "C01: a pass starts with no open input level, section, conditional, SAVE frame or structure");
+    VPOST(MomLocHandle == -1 && LocHandleCnt == 0 && SectSymbolCounter == 0, "C01: a pass starts with fresh local-symbol and section numbering");
+    VPOST(!ENDOccured && !RelSegs && ErrorCount == 0 && WarnCount == 0, "C01/C02: a pass starts with END not seen and zero diagnostics counted");
+    VREACH("end");
+}
